@@ -57,6 +57,7 @@ type LogOp struct {
 	Entries []EntrySpec `json:"entries,omitempty"`
 	Index   uint64      `json:"index,omitempty"`
 	Term    uint64      `json:"term,omitempty"`
+	inR     bool        // belongs to the reduced alphabet too
 }
 
 func (o LogOp) String() string {
@@ -150,7 +151,7 @@ func logAlphabet(d *sim.LogDisk, full bool) []LogOp {
 	var ops []LogOp
 	for n := 1; n <= 3; n++ {
 		for _, v := range vs {
-			op := LogOp{Op: "append"}
+			op := LogOp{Op: "append", inR: v == 0 || v == 4 || v == 8}
 			for k := 0; k < n; k++ {
 				op.Entries = append(op.Entries, variant(v+4*k, next+uint64(k), lt+1))
 			}
@@ -164,17 +165,17 @@ func logAlphabet(d *sim.LogDisk, full bool) []LogOp {
 		}
 	}
 	for _, i := range contained {
-		ops = append(ops, LogOp{Op: "truncate", Index: i})
+		ops = append(ops, LogOp{Op: "truncate", Index: i, inR: true})
 	}
 	for _, i := range contained {
-		ops = append(ops, LogOp{Op: "compact", Index: i})
+		ops = append(ops, LogOp{Op: "compact", Index: i, inR: true})
 	}
 	for _, i := range contained {
 		e, _ := m.GetEntry(i)
-		ops = append(ops, LogOp{Op: "discard", Index: i, Term: e.Term})
+		ops = append(ops, LogOp{Op: "discard", Index: i, Term: e.Term, inR: true})
 	}
-	ops = append(ops, LogOp{Op: "discard", Index: last + 2, Term: lt + 1})
-	ops = append(ops, LogOp{Op: "reopen"})
+	ops = append(ops, LogOp{Op: "discard", Index: last + 2, Term: lt + 1, inR: true})
+	ops = append(ops, LogOp{Op: "reopen", inR: true})
 	return ops
 }
 
@@ -458,13 +459,32 @@ func tailAlias(t string) string {
 
 type logHist struct {
 	img          *logImage
-	accepted     bool // a recovery over this image succeeded with allowed content
-	appendsAfter int  // appends that returned success afterwards
+	torn         string // the crash cut a write to log.bin short: which part of a record
+	accepted     bool   // a recovery over this image succeeded with allowed content
+	appendsAfter int    // appends started afterwards (completed or in flight)
+}
+
+func tornKind(hit *CallRec, p *Point) string {
+	if hit == nil || p == nil || p.J <= 0 || hit.Op != "Write" || filepath.Base(hit.Path) != "log.bin" {
+		return ""
+	}
+	if hit.N == 4 {
+		return "crash-inside-length-prefix"
+	}
+	return "crash-inside-record-body"
 }
 
 // classifyLog turns an oracle failure into a signature: the failed oracle
 // clause plus the shape of the crash image that is its cause.
 func classifyLog(hist []*logHist, phase, step string, lost bool) string {
+	// A recovery that fails right after a crash that tore a write to log.bin
+	// is attributed to that torn write (whatever happened before).
+	if n := len(hist); n > 0 && phase == "recover" && step == "replay" && hist[n-1].torn != "" {
+		return "replay-error:" + hist[n-1].torn
+	}
+	// Otherwise, if an earlier recovery accepted "header complete, body
+	// absent" as end-of-log without repairing the file, what goes wrong after
+	// the next append (completed or in flight) is attributed to that.
 	for _, h := range hist {
 		if h.accepted && h.img.Tail == "orphan-header" {
 			if h.appendsAfter > 0 {
@@ -610,6 +630,9 @@ func RunLogCase(c *LogCase, record bool) (out *logOutcome) {
 				before := disk.Clone()
 				var mstep, rstep string
 				var merr, rerr error
+				if op.Op == "append" {
+					noteAppend()
+				}
 				model, mstep, merr = applyLogOp(model, op, func() (raft.Log, string, error) { return newModel(disk), "", nil })
 				real, rstep, rerr = applyLogOp(real, op, func() (raft.Log, string, error) { return openRealLog(dir) })
 				if inj.Dead {
@@ -620,9 +643,6 @@ func RunLogCase(c *LogCase, record bool) (out *logOutcome) {
 				if (merr == nil) != (rerr == nil) || mstep != rstep || (merr != nil && merr.Error() != rerr.Error()) {
 					out.Fail = failf(classifyLog(hist, "clean", "return-value:"+op.Op, false), "%s returned %v (step %s), the reference model %v (step %s); case: %s", op, rerr, rstep, merr, mstep, c)
 					return
-				}
-				if op.Op == "append" && rerr == nil {
-					noteAppend()
 				}
 				ro, mo := observeLog(real), observeLog(model)
 				out.Checks++
@@ -665,7 +685,7 @@ func RunLogCase(c *LogCase, record bool) (out *logOutcome) {
 			return
 		}
 		img := inspectLog(dir)
-		hist = append(hist, &logHist{img: img})
+		hist = append(hist, &logHist{img: img, torn: tornKind(inj.Hit, st.Crash)})
 		if last {
 			out.CrashImg = img
 		}
@@ -688,17 +708,17 @@ func RunLogCase(c *LogCase, record bool) (out *logOutcome) {
 	accept()
 	out.Matched = disk.Clone()
 	model := newModel(disk)
+	ci, ct := model.NextIndex(), model.LastTerm()+1
 	fresh := func() *raft.LogEntry {
-		i := model.NextIndex()
-		return raft.NewLogEntry(i, model.LastTerm()+1, []byte{contMarker, byte(i), 'c', 'o', 'n', 't'}, raft.OperationEntry)
+		return raft.NewLogEntry(ci, ct, []byte{contMarker, byte(ci), 'c', 'o', 'n', 't'}, raft.OperationEntry)
 	}
+	noteAppend()
 	merr, rerr := model.AppendEntry(fresh()), real.AppendEntry(fresh())
 	out.Checks++
 	if merr != nil || rerr != nil {
 		out.Fail = failf(classifyLog(hist, "continuation", "append", false), "continuation AppendEntry on the recovered log returned %v (model %v); image: %s; case: %s", rerr, merr, lastImage(hist), c)
 		return
 	}
-	noteAppend()
 	if ro, mo := observeLog(real), observeLog(model); !ro.equal(mo) {
 		out.Fail = failf(classifyLog(hist, "continuation", "append-content", false), "after the continuation append the log reads %s, the model %s; image: %s; case: %s", ro, mo, lastImage(hist), c)
 		return
